@@ -55,19 +55,23 @@ type JobResult struct {
 	Solver  SolverStats `json:"solver"`
 	Funcs   []string    `json:"funcs,omitempty"`
 	Error   string      `json:"error,omitempty"`
-	Unwind  int         `json:"unwind"`
-	UnwindV bool        `json:"unwind_is_violation,omitempty"`
+	// Incomplete: the exploration budget ran out; Obls are those collected up to then (a sat one is
+	// still a real counterexample, an all-unsat result proves nothing)
+	Incomplete string `json:"incomplete,omitempty"`
+	Unwind     int    `json:"unwind"`
+	UnwindV    bool   `json:"unwind_is_violation,omitempty"`
 }
 
 type WorkerCfg struct {
-	VerifDir   string            `json:"verif_dir"`
-	Repo       string            `json:"repo"`
-	PkgDirs    []string          `json:"pkg_dirs"`
-	Tier       int               `json:"tier"`
-	Known      map[string]bool   `json:"known"`
-	KnownSites map[string]string `json:"known_sites"`
-	TmoMs      int               `json:"tmo_ms"`
-	SolverPar  int               `json:"solver_par"`
+	VerifDir    string            `json:"verif_dir"`
+	Repo        string            `json:"repo"`
+	PkgDirs     []string          `json:"pkg_dirs"`
+	Tier        int               `json:"tier"`
+	Known       map[string]bool   `json:"known"`
+	KnownSites  map[string]string `json:"known_sites"`
+	TmoMs       int               `json:"tmo_ms"`
+	SolverPar   int               `json:"solver_par"`
+	ExecBudgetS int               `json:"exec_budget_s"`
 }
 
 func workerMain(cfgPath string) {
@@ -161,14 +165,30 @@ func runJob(ld *Loaded, cfg *WorkerCfg, job Job) (res JobResult) {
 	}
 	e.instrs, e.forks, e.merges, e.states = 0, 0, 0, 0
 	e.funcs = map[string]bool{}
-	outs := e.call(st, fn, nil, nil)
+	if cfg.ExecBudgetS > 0 {
+		e.deadline = time.Now().Add(time.Duration(cfg.ExecBudgetS) * time.Second)
+	}
+	var outs []Outcome
+	func() {
+		defer func() {
+			if r := recover(); r != nil {
+				if _, ok := r.(budgetExceeded); ok {
+					res.Incomplete = fmt.Sprintf("exploration budget of %ds exhausted after %d instructions; only the %d obligations collected so far are decided", cfg.ExecBudgetS, e.instrs, len(e.obls))
+					return
+				}
+				panic(r)
+			}
+		}()
+		outs = e.call(st, fn, nil, nil)
+	}()
+	e.deadline = time.Time{}
 	res.Stats.ExecS = time.Since(t0).Seconds()
 	res.Stats.Instrs, res.Stats.Forks, res.Stats.Merges, res.Stats.States, res.Stats.Pruned = e.instrs, e.forks, e.merges, e.states+1, e.pruned
 	res.Stats.FeasCalls, res.Stats.Inputs = e.feasCalls, len(e.inputs)
 	res.Stats.Paths = len(outs)
 	res.Unwind = e.unwind
 	res.UnwindV = e.unwindViolation
-	if e.split != nil {
+	if e.split != nil && res.Incomplete == "" {
 		res.Split = e.split
 		return
 	}
@@ -269,6 +289,14 @@ func (e *Exec) discharge(cfg *WorkerCfg) []OblResult {
 		}
 	}
 	results := make([][]OblResult, len(work))
+	var dischargeBy time.Time
+	if cfg.ExecBudgetS > 0 {
+		dischargeBy = time.Now().Add(time.Duration(2*cfg.ExecBudgetS) * time.Second)
+	}
+	// panic obligations first: when the budget runs out the cheapest strong evidence is in
+	if len(work) > 3000 {
+		sort.SliceStable(work, func(i, j int) bool { return work[i].Kind == "panic" && work[j].Kind != "panic" })
+	}
 	// group obligations that share their path condition: one incremental session per group
 	groupOf := map[string][]int{}
 	var gkeys []string
@@ -288,8 +316,8 @@ func (e *Exec) discharge(cfg *WorkerCfg) []OblResult {
 	for _, k := range gkeys {
 		g := groupOf[k]
 		chunk := (len(g) + par - 1) / par
-		if chunk < 8 {
-			chunk = 8
+		if chunk < 32 {
+			chunk = 32
 		}
 		for len(g) > 0 {
 			n := chunk
@@ -319,10 +347,23 @@ func (e *Exec) discharge(cfg *WorkerCfg) []OblResult {
 			defer wg.Done()
 			for g := range next {
 				var sess *IncSession
-				if len(g) >= 3 && os.Getenv("GOSYM_NOINC") == "" {
+				// assertions (frame comparisons over many bytes) are decided much faster by the
+				// incremental core than by the one-shot bit-blasting tactic: measured 12 s vs 0.2 s
+				useSess := len(g) >= 3
+				for _, i := range g {
+					if work[i].Kind == "assert" && !work[i].cond.isConst() {
+						useSess = true
+					}
+				}
+				if useSess && os.Getenv("GOSYM_NOINC") == "" {
 					sess = so.NewSession(work[g[0]].pc)
 				}
 				for _, i := range g {
+					if !dischargeBy.IsZero() && time.Now().After(dischargeBy) {
+						// discharge budget exhausted: undecided, never counted as holding
+						results[i] = []OblResult{{Kind: work[i].Kind, Msg: work[i].Msg, Site: work[i].Site, Status: "unknown", Solver: "discharge-budget"}}
+						continue
+					}
 					results[i] = e.dischargeOne(cfg, so, sess, work[i], tmo)
 				}
 				if sess != nil {
